@@ -44,7 +44,8 @@ CHECKS = {
         text="TLC enumerates texture sizes x a coordinate lattice (quarters, +-0, the 2^31 boundary, huge, inf, NaN), "
              "checks on the relation that the three samplers agree in range and never leave the texture, and exports "
              "every point; the real samplers (absolute and relative entry points, owned and sub-region textures) are "
-             "run on those points and on seeded random f32 bit patterns, and every call is judged by TLC.",
+             "run on those points and on seeded random f32 bit patterns (also nested sub-regions, and the samplers built under the "
+             "no-feature, libm and micromath float backends), and every call is judged by TLC.",
         design="DESIGN.md §5 C12",
         note=TRUST + "; f32 decoding in harness/src/util.rs"),
     "C06": dict(
@@ -57,7 +58,7 @@ CHECKS = {
              "scenes are rendered under all permutations/partitions/sort settings and every recorded history is replayed "
              "by TLC on the state machine fed with the observed single-triangle footprints.",
         design="DESIGN.md §5 C06",
-        note=TRUST + "; footprints of single triangles come from the implementation"),
+        note=TRUST + "; footprints of single triangles come from the implementation and must satisfy Target!SceneOK (equal to the scanlines handed to the target)"),
     "C07": dict(
         technique="TLA+ state machine Target with context flags and statistics; TLC checks mask/test/discard/cull/counter "
                   "laws over all flag combinations in small scope; trace validation of recorded flag histories (planes "
@@ -67,7 +68,7 @@ CHECKS = {
              "viewports and both front doors are recorded (planes + statistics after each call) and validated by TLC; "
              "facing is decided by TLC from exact lattice determinants.",
         design="DESIGN.md §5 C07",
-        note=TRUST + "; footprints and clip piece counts of single triangles come from the implementation"),
+        note=TRUST + "; footprints and clip piece counts of single triangles come from the implementation; footprints must satisfy Target!SceneOK"),
     "C04": dict(
         technique="TLA+ relation Raster (exact integer edge functions on pixel-centre lattices, 0.001 px band); TLC checks "
                   "order-freedom, shared-edge and partition theorems of the relation; trace validation of every recorded "
